@@ -1,9 +1,10 @@
 #!/bin/bash
-# tools/seedflow.sh <Cxx> [suffix]   confirm the sub-agent's changes, drop its worktree, run the property's check on each
-p="$1"; suf="$2"
+# tools/seedflow.sh <Cxx> [suffix] [srcdir-name]  confirm the sub-agent's changes, drop its worktree, run the property's check on each
+p="$1"; suf="$2"; src="${3:-_seed}"
 cd /verif
-python3 tools/ingest_seed.py "$p" "/tmp/seed_$p/_seed" "$suf" 2>&1 | tail -4
-mkdir -p /tmp/seed_archive && cp -r "/tmp/seed_$p/_seed" "/tmp/seed_archive/$p$suf" 2>/dev/null
+python3 tools/ingest_seed.py "$p" "/tmp/seed_$p/$src" "$suf" 2>&1 | tail -4
+mkdir -p /tmp/seed_archive && cp -r "/tmp/seed_$p/$src" "/tmp/seed_archive/$p$suf" 2>/dev/null
 git -C /repo worktree remove --force "/tmp/seed_$p"
 names=$(ls seeded | grep "^$p-${suf}m")
-[ -n "$names" ] && python3 tools/seeded.py --worktree $names 2>&1 | tail -4
+case "$p" in C06|C10) wt="";; *) wt="--worktree";; esac
+[ -n "$names" ] && python3 tools/seeded.py --worktree --seeds 1,2 $names 2>&1 | tail -4
